@@ -126,7 +126,7 @@ def generate(seed: int, tier: str = "quick") -> dict:
     for _ in range(nother):
         b = rp.randint(0, nb - 1)
         phase = rp.choice(["before_bar", "trigger", "on_bar", "on_bar", "after_bar"])
-        kind = rp.choice(["add_unrelated", "add_unrelated", "remove_part", "remove_all_of", "collect", "buy", "sell", "add_same"])
+        kind = rp.choice(["add_unrelated", "add_unrelated", "remove_part", "remove_all_of", "collect", "buy", "sell", "add_same", "lend_out", "take_back"])
         cur = ticks[close_of(b)]
         if kind == "add_unrelated":
             lo = _round(cur + rp.randint(-400, 400) * sp, sp)
@@ -146,11 +146,28 @@ def generate(seed: int, tier: str = "quick") -> dict:
             program.append({"bar": b, "phase": phase, "op": "uni.remove", "m": "uni0", "a": a})
         elif kind == "collect":
             program.append({"bar": b, "phase": phase, "op": "uni.collect", "m": "uni0", "a": {"pos": {"i": rp.randint(0, 5)}}})
+        elif kind in ("lend_out", "take_back"):
+            # a position handed to another market (e.g. as vault collateral) stays in the pool and keeps earning
+            i_pos = rp.randint(0, 5)
+            program.append({"bar": b, "phase": phase, "op": "uni.transfer_out" if kind == "lend_out" else "uni.transfer_in", "m": "uni0", "a": {"pos": {"i": i_pos}}})
+            if kind == "lend_out" and rp.random() < 0.6 and b + 2 < nb:
+                program.append({"bar": rp.randint(b + 2, nb - 1), "phase": phase, "op": "uni.transfer_in", "m": "uni0", "a": {"pos": {"i": i_pos}}})
+            faults.append({"kind": "position_lent_out", "bar": b})
         elif kind == "buy":
             program.append({"bar": b, "phase": phase, "op": "uni.buy", "m": "uni0", "a": {"amount": {"f": f"wallet:{_base(mw)}", "x": "0.01"}}})
         else:
             program.append({"bar": b, "phase": phase, "op": "uni.sell", "m": "uni0", "a": {"amount": {"f": f"wallet:{_base(mw)}", "x": "0.01"}}})
     program.sort(key=lambda o: (o["bar"], ["initialize", "before_bar", "trigger", "on_bar", "after_bar", "notify"].index(o["phase"])))
+    # a second pool of the same pair on the broker that nobody touches, registered before or after the pool under test:
+    # whether and when uni0 gets its same-bar refresh must not depend on its neighbours
+    rb = R.sub(seed, "bystander")
+    if rb.random() < 0.35:
+        fee_b = rb.choice([f for f in U.FEES if f != mw["fee"]])
+        other = U.gen_uni_market(rb, "uniB", n, t0, t1, quote, fee=fee_b)
+        other["currentLiquidity"] = [x if int(x) > 0 else "1000000000000" for x in other["currentLiquidity"]]
+        first = rb.random() < 0.7
+        world["markets"] = [other, mw] if first else [mw, other]
+        faults.append({"kind": "bystander_pool_registered_" + ("first" if first else "last"), "bar": 0})
     return {"property": ID, "seed": seed, "world": world, "program": program, "faults": faults}
 
 
@@ -193,7 +210,7 @@ class FeeOracle(Oracle):
 
     def start(self, sim):
         w = sim.world
-        mw = w["markets"][0]
+        mw = next(m for m in w["markets"] if m["name"] == "uni0")
         self.mw = mw
         k = int(pd.Timedelta(w["interval"]) / pd.Timedelta("1min"))
         start = pd.Timestamp(w["start"])
